@@ -314,7 +314,7 @@ Definition get_common_ancestor t (s d : nat) : outcome nat :=
   pd <- get_path_from_root t d ;;
   let cursor := first_diff ps pd 0 in
   match cursor with
-  | 0 => Panic 3                      (* `cursor - 1` underflow (debug) / index out of bounds (release) *)
+  | 0 => Err RootNotFound             (* fix F12: nodes of different components share no ancestor (was `cursor - 1` underflow) *)
   | S c => match nth_error ps c with Some x => Ok x | None => Panic 4 end
   end.
 
